@@ -493,3 +493,56 @@ func helperNamespaces(r *Run) {
 		}
 	}
 }
+
+// modifierSpellings: relations on the real engine alone, for the escape modifiers of one property (mods) and the region
+// they belong to (open / close; "" when there is none):
+//   - blanks around the NAME of a modifier belong to the spelling of the chain: `x| M`, `x|M (2)`, `x|M |default(..)`
+//     render what `x|M`, `x|M(2)`, `x|M|default(..)` render (a modifier with a blank next to its name used to be dropped
+//     silently: the value was printed unescaped);
+//   - an escape modifier that is asked for makes one pass at least: a count of 0 or less — a literal, or text from the
+//     data — renders what the count 1 renders;
+//   - a value marked raw stays marked whatever modifiers follow the mark: inside the region `x|raw|default(d)` renders
+//     what `x|default(d)|raw` renders.
+func modifierSpellings(r *Run, mods []string, open, close string) {
+	val := "<a href=\"x y\">&'\\/\n\t é</a>"
+	render := func(src string) (rendered, string) {
+		key, err, pan := regTpl(src, true)
+		if err != nil || pan != "" {
+			return rendered{}, fmt.Sprintf("Parse rejects %s: %v %s", src, err, pan)
+		}
+		ctx := dyntpl.NewCtx()
+		ctx.SetString("x", val)
+		ctx.SetString("e", "")
+		ctx.SetBytes("zero", []byte("0"))
+		ctx.SetString("neg", "-2")
+		ctx.SetStatic("szero", "0")
+		return renderSafe(key, ctx), ""
+	}
+	same := func(kind, a, b string) {
+		ra, ba := render(a)
+		rb, bb := render(b)
+		sig := "modifier-spelling " + kind + " " + b
+		r.Count(sig, true)
+		r.Dist["modifier-spelling:"+kind]++
+		if ba != "" || bb != "" || ra.ErrStr() != rb.ErrStr() || !bytes.Equal(ra.Out, rb.Out) {
+			r.Violate(sig, "two spellings of the same modifier chain render differently ("+kind+")",
+				map[string]any{"reference": a, "spelling": b, "reference_output": string(ra.Out), "spelling_output": string(rb.Out), "reference_error": ra.ErrStr(), "spelling_error": rb.ErrStr(), "problem": ba + bb, "value": val})
+		}
+	}
+	for _, m := range mods {
+		same("blank", `[{%= x|`+m+` %}]`, `[{%= x| `+m+` %}]`)
+		same("blank", `[{%= x|`+m+`(2) %}]`, `[{%= x|`+m+` (2) %}]`)
+		same("blank", `[{%= x|`+m+`|default("-") %}]`, `[{%= x|`+m+` |default("-") %}]`)
+		same("blank", `[{%= e|default(x)|`+m+` %}]`, `[{%= e|default(x)|  `+m+`  %}]`)
+		same("blank", `{% ctx y = x|`+m+` %}[{%= y %}]`, `{% ctx y = x| `+m+` %}[{%= y %}]`)
+		same("blank", `[{%= x|`+m+` pfx ( sfx ) %}]`, `[{%= x| `+m+` pfx ( sfx ) %}]`)
+		for _, cnt := range []string{"0", "-1", "00", "zero", "neg", "szero"} {
+			same("count", `[{%= x|`+m+`(1) %}]`, `[{%= x|`+m+`(`+cnt+`) %}]`)
+		}
+	}
+	if open != "" {
+		same("raw", open+`{%= x|default("-")|raw %}|{%= e|default(x)|raw %}`+close, open+`{%= x|raw|default("-") %}|{%= e|raw|default(x) %}`+close)
+		same("raw", open+`{%= x|default("-")|noesc %}`+close, open+`{%= x|noesc|default("-") %}`+close)
+		same("raw", open+`{%= x|raw %}`+close, open+`{%= x| raw %}`+close)
+	}
+}
